@@ -257,20 +257,59 @@ theorem applyPositionRestrictions_noPos {g : List TagInfo} (hp : ∀ x ∈ g, x.
 theorem applyPositionRestrictions_plain {g : List TagInfo} (hp : Plain g) : applyPositionRestrictions g = g :=
   applyPositionRestrictions_noPos (fun x hx => (hp x hx).2)
 
-/-- groups without position restrictions (comments allowed): per-item contributions in sorted order -/
+/-- the offsets the writer uses (after the `fix:` commit): an item with start offset 0 directly behind a written line
+    comment is written with offset 1; the flag is `after_line_comment` of `add_group` -/
+def bumpItems : Bool → List TagInfo → List TagInfo
+  | _, [] => []
+  | alc, item :: rest =>
+    if item.isComment then
+      if item.included then item :: bumpItems alc rest
+      else { item with startOff := bumpOff alc item.startOff } :: bumpItems (isLineCommentText item.text) rest
+    else { item with startOff := bumpOff alc item.startOff } :: bumpItems false rest
+
+/-- what one entry contributes: a comment its line breaks and verbatim text, an element its chunk -/
+def itemChunk (indent : Nat) (item : TagInfo) : List Char :=
+  if item.isComment then (if item.included then [] else List.replicate item.startOff '\n' ++ item.text)
+  else chunk indent item
+
+/-- the loop of `add_group` writes the per-item contributions of the list with bumped offsets -/
+theorem addGroupGo_eq (indent : Nat) : ∀ (alc : Bool) (l : List TagInfo),
+    addGroupGo indent alc l = (bumpItems alc l).flatMap (itemChunk indent)
+  | _, [] => rfl
+  | alc, item :: rest => by
+    unfold addGroupGo bumpItems
+    by_cases hc : item.isComment = true
+    · by_cases hi : item.included = true
+      · simp only [hc, hi, if_true, List.flatMap_cons, itemChunk, List.nil_append]
+        exact addGroupGo_eq indent alc rest
+      · simp only [hc, hi, if_true, Bool.false_eq_true, if_false, List.flatMap_cons, itemChunk]
+        rw [addGroupGo_eq indent _ rest]
+    · simp only [hc, Bool.false_eq_true, if_false, List.flatMap_cons, itemChunk, chunk]
+      rw [addGroupGo_eq indent false rest]
+
+theorem bumpOff_false (n : Nat) : bumpOff false n = n := by simp [bumpOff]
+
+/-- without comments the flag is never set: nothing is bumped -/
+theorem bumpItems_plain : ∀ (l : List TagInfo), (∀ x ∈ l, x.isComment = false) → bumpItems false l = l
+  | [], _ => rfl
+  | item :: rest, h => by
+    have h0 := h item List.mem_cons_self
+    unfold bumpItems
+    rw [if_neg (by simp [h0]), bumpOff_false, bumpItems_plain rest (fun x hx => h x (List.mem_cons_of_mem _ hx))]
+
+/-- groups without position restrictions (comments allowed): per-item contributions in sorted order, with the
+    offset of an item directly behind a line comment raised from 0 to 1 -/
 theorem addGroup_noPos (indent : Nat) (g : List TagInfo) (hp : ∀ x ∈ g, x.pos = none) :
-    addGroup indent g = (g.mergeSort tagLe).flatMap fun item =>
-      if item.isComment then (if item.included then [] else List.replicate item.startOff '\n' ++ item.text)
-      else chunk indent item := by
+    addGroup indent g = (bumpItems false (g.mergeSort tagLe)).flatMap (itemChunk indent) := by
   unfold addGroup
-  rw [applyPositionRestrictions_noPos (fun x hx => hp x (List.mem_mergeSort.mp hx))]
-  rfl
+  rw [applyPositionRestrictions_noPos (fun x hx => hp x (List.mem_mergeSort.mp hx)), addGroupGo_eq]
 
 theorem addGroup_plain (indent : Nat) (g : List TagInfo) (hp : Plain g) :
     addGroup indent g = (g.mergeSort tagLe).flatMap (chunk indent) := by
-  rw [addGroup_noPos indent g (fun x hx => (hp x hx).2)]
+  rw [addGroup_noPos indent g (fun x hx => (hp x hx).2),
+    bumpItems_plain _ (fun x hx => (hp.mergeSort x hx).1)]
   apply flatMap_congr_mem
   intro x hx
-  simp [(hp.mergeSort x hx).1]
+  simp [itemChunk, (hp.mergeSort x hx).1]
 
 end A2l.Tree
